@@ -625,6 +625,9 @@ func genOp1(rt *rapid.T, w *World, pr *Profile) Op {
 		if op.Cb == "set" || op.Cb == "retry" {
 			op.Body = genBody(rt, "json", small)
 		}
+		if op.Cb == "retry" {
+			op.Amt = uint64(pick(rt, []int{1, 1, 2, 6, 11}, "upd.retries")) // a loop must go on as long as it is asked to
+		}
 		if op.Cb == "expOnly" || chance(rt, 25, "upd.cbexp") {
 			e := genExp(rt, pr.ExpW)
 			op.CbExp = &e
@@ -702,6 +705,9 @@ func genOp1(rt *rapid.T, w *World, pr *Profile) Op {
 		op.XDel = genXattrDel(rt, p, 0, 2)
 	case "WriteUpdateWithXattrs":
 		op.Cb = weighted(rt, map[string]int{"set": 75, "error": 10, "retry": 15}, "wu.cb")
+		if op.Cb == "retry" {
+			op.Amt = uint64(pick(rt, []int{1, 1, 2, 6, 11}, "wu.retries"))
+		}
 		op.Exp = genExp(rt, pr.ExpW)
 		op.Prev = weighted(rt, map[string]int{"": 60, "current": 25, "stale": 15}, "wu.prev")
 		op.XKeys = []string{"_sync", "_vv", "_mou", "_sy", "user", "u2"}
@@ -820,6 +826,18 @@ func genSubdocPath(rt *rapid.T, p St) string {
 	sort.Strings(scalars)
 	if len(scalars) > 0 && chance(rt, 12, "sd.through") {
 		return pick(rt, scalars, "sd.scalar") + "." + pick(rt, propNames, "sd.leaf")
+	}
+	if chance(rt, 6, "sd.emptycomp") {
+		// an empty path component is a property whose name is the empty string, not something to skip
+		n1, n2 := pick(rt, propNames, "sd.e1"), pick(rt, propNames, "sd.e2")
+		if len(scalars) > 0 || len(doc) > 0 {
+			for k := range doc {
+				if k < n1 || n1 == "" {
+					n1 = k
+				}
+			}
+		}
+		return pick(rt, []string{n1 + ".", n1 + ".." + n2, "." + n1}, "sd.eshape")
 	}
 	depth := rapid.IntRange(1, 3).Draw(rt, "sd.depth")
 	var comps []string
